@@ -37,7 +37,7 @@
                    YCheck  check_cancel: state == 1 -> get_co_para(), then Cancel panic unless panicking
                    YNone   Park with ignore_cancel: nothing
                    YSelect EventSender: get_co_para().is_some() -> Cancel panic (a second panic aborts: no step)
-                   YClear  RawIoBlock (wait_io): clear_cancel_bit ONLY (cfg fixW: also get_co_para)  -> PAfter k | PBody
+                   YClear  RawIoBlock (wait_io): [cfg fixW: get_co_para, since commit 172d8b3] clear_cancel_bit  -> PAfter k | PBody
      After c       the rest of the blocking function (table consumes): park_timeout / sleep / fast park /
                    co_io_result call get_co_para (the verdict); yield_now, spsc recv, select send and
                    wait_io do not                                                                     -> PBody
@@ -72,7 +72,7 @@ Definition is_park (k : bkind) : bool := match k with BPark _ _ => true | _ => f
 Inductive pc := PNone | PNew | PBody | PShort (k : bkind) | PSusp (k : bkind) | PReady (k : bkind)
               | PBack (k : bkind) | PAfter (k : bkind) | PEnd | PPut | PDone.
 
-(* fixW: RawIoBlock::yield_back also consumes the para (the proposed repair); initv: the initialiser
+(* fixW: RawIoBlock::yield_back also consumes the para (finding F30, repaired by /repo commit 172d8b3); initv: the initialiser
    expression of each key; cap: pool capacity *)
 Record cfg := { fixW : bool; initv : nat -> Z; cap : nat }.
 
@@ -327,7 +327,7 @@ Definition step (cf : cfg) (s : st) (a : action) : option st :=
   | After c =>
       match pcm s c with
       | PAfter k =>
-          let s1 := if is_park k then s |> set_ptokm (upd (ptokm s) c false) else s in
+          let s1 := s |> set_ptokm (upd (ptokm s) c (negb (is_park k) && ptokm s c)) in
           if consumes k then
             Some (s1 |> set_verm (upd (verm s) c (Some (para_of s c))) |> set_vkindm (upd (vkindm s) c k)
                      |> set_para_of c None |> set_pc c PBody)
@@ -379,7 +379,7 @@ Fixpoint run (cf : cfg) (s : st) (l : list action) : option st :=
   | a :: l' => match step cf s a with Some s' => run cf s' l' | None => None end
   end.
 
-(* the code as it is in /repo, and with the proposed repair of wait_io *)
+(* the code as it is in /repo (pool capacity n), and as it was before commit 172d8b3 (finding F30) *)
 Definition initv0 (k : nat) : Z := Z.of_nat (100 * (k + 1)).
-Definition current (n : nat) : cfg := {| fixW := false; initv := initv0; cap := n |}.
-Definition repaired (n : nat) : cfg := {| fixW := true; initv := initv0; cap := n |}.
+Definition current (n : nat) : cfg := {| fixW := true; initv := initv0; cap := n |}.
+Definition prefix (n : nat) : cfg := {| fixW := false; initv := initv0; cap := n |}.
